@@ -17,24 +17,24 @@ def run(ctx):
     bs = se.blocks()
     names = ["rmw2", "rmw3", "dd3", "grow_shrink3", "f_ben_reader", "stale_fatal2", "swallow3", "ignore3"]
     for workers in (1, 2, 3):
-        r, out, args = se.controlled(ctx, names, 20 if quick else 2500, workers=workers, tag=f"w{workers}")
+        r, out, args = se.controlled(ctx, names, ctx.n(20, 2500), workers=workers, tag=f"w{workers}")
         se.report(ctx, r, args, "C11", also=("C01", "C02", "C04"))
         se.validate(ctx, r, out, f"trace_w{workers}", workers=workers)
     # a fatal fault returned by the precompile for a stale value must not decide the block: the specification's
     # counterexample (attempt started before its predecessor was committed, finished after) replayed on the code
     w = se.witness(ctx, "GHeadAtStart", "stale_fatal2_nocheck", regenerate=False)
     if w["found"]:
-        se.replay_witness(ctx, w, "C11", also=("C01", "C04"), extra_runs=6 if quick else 40)
+        se.replay_witness(ctx, w, "C11", also=("C01", "C04"), extra_runs=ctx.n(6, 40))
     for b in ("stale_fatal2_nocheck", "stale_fatal2", "invalid_stale2"):
         g = se.goal(ctx, "CommitDuringFailedAttempt", b)
         ctx.guards[f"goal CommitDuringFailedAttempt on {b}"] = f"reached at depth {g['depth']}" if g["found"] else "not reachable"
         if g["found"]:
-            se.replay_witness(ctx, g, "C11", also=("C01", "C04"), extra_runs=4 if quick else 30)
-    r, out, args = se.controlled(ctx, ["stale_fatal2_nocheck", "stale_fatal2", "invalid_stale2"], 120 if quick else 4000, workers=2, tag="stale")
+            se.replay_witness(ctx, g, "C11", also=("C01", "C04"), extra_runs=ctx.n(4, 30))
+    r, out, args = se.controlled(ctx, ["stale_fatal2_nocheck", "stale_fatal2", "invalid_stale2"], ctx.n(120, 4000), workers=2, tag="stale")
     se.report(ctx, r, args, "C11", also=("C01", "C02", "C04"))
     se.validate(ctx, r, out, "trace_stale", workers=2)
     out = ctx.path("shapes.ndjson")
-    args = {"groups": ["SCHED"], "workers": 2, "max_runs": 40 if quick else 2000, "seed": ctx.seed, "policy": "pct", "out": out, "scenarios": fam}
+    args = {"groups": ["SCHED"], "workers": 2, "max_runs": ctx.n(40, 2000), "seed": ctx.seed, "policy": "pct", "out": out, "scenarios": fam}
     r = ctx.vh("sched", args, timeout=3000)
     se.report(ctx, r, args, "C11", also=("C01", "C02"))
     se.validate(ctx, r, out, "trace_shapes")
@@ -52,7 +52,7 @@ def run(ctx):
                 s["name"] = f"{n}@{key}:{mode}"
                 s["fault"] = {"key": key, "mode": mode}
                 scn.append(s)
-    args = {"groups": ["SCHED"], "workers": 2, "max_runs": 8 if quick else 400, "seed": ctx.seed, "policy": "pct", "out": ctx.path("faults.ndjson"), "scenarios": scn}
+    args = {"groups": ["SCHED"], "workers": 2, "max_runs": ctx.n(8, 400), "seed": ctx.seed, "policy": "pct", "out": ctx.path("faults.ndjson"), "scenarios": scn}
     r = ctx.vh("sched", args, timeout=3000)
     se.report(ctx, r, args, "C11", also=("C04",))
     ctx.assumptions += ["in Grevm.tla a facade access is an ordinary read / write of the multi-version rules (that is the claim); the trace of every run shows each facade access with the version it resolved",
